@@ -270,6 +270,30 @@ def inline(ctx, f: FuncInfo, want: Callable[[FuncInfo], bool] | None = None) -> 
         # helper's body is copied with the clashing names renamed (positions are kept, so typed facts still apply;
         # the copies get their own parent links)
         h_locals = _names_bound(h.node) - set(h.params)
+        # a parameter that is handed a plain name of the caller (and never re-bound by the helper) *is* that name: the
+        # helper's body is copied with the parameter renamed instead of `param = name` in front of it
+        h_stores = _names_bound(h.node)
+        direct_ren = {}
+        for p_, a_ in list(amap.items()):
+            if isinstance(a_, ast.Name) and a_.id != p_ and p_ not in h_stores and a_.id not in h_locals and a_.id not in h.params and not any(isinstance(n_, ast.Name) and n_.id == a_.id for n_ in ast.walk(h.node)) and not any(isinstance(x_, (ast.FunctionDef, ast.AsyncFunctionDef, ast.Lambda)) for x_ in ast.walk(h.node) if x_ is not h.node):
+                direct_ren[p_] = a_.id
+        if direct_ren and len(set(direct_ren.values())) == len(direct_ren):
+            class _DR(ast.NodeTransformer):
+                def visit_Name(self, n):
+                    if n.id in direct_ren:
+                        n.id = direct_ren[n.id]
+                    return n
+
+            body = [_DR().visit(copy.deepcopy(b)) for b in body]
+            for b in body:
+                for par in ast.walk(b):
+                    if not hasattr(par, "_mod"):
+                        par._mod = h.module  # type: ignore[attr-defined]
+                    for ch in ast.iter_child_nodes(par):
+                        parents[ch] = par
+            amap = {direct_ren.get(p_, p_): (ast.copy_location(ast.Name(id=direct_ren[p_], ctx=ast.Load()), a_) if p_ in direct_ren else a_) for p_, a_ in amap.items()}
+            rets = [n for s_ in body for n in ast.walk(s_) if isinstance(n, ast.Return)]
+            final_ret = body[-1] if body and isinstance(body[-1], ast.Return) else None
         tgt_names0 = set() if tgt is None or not isinstance(tgt, (ast.Name, ast.Tuple)) else {tgt.id} if isinstance(tgt, ast.Name) else {x.id for x in tgt.elts if isinstance(x, ast.Name)}
         clash = {p for p, a in amap.items() if not (isinstance(a, ast.Name) and a.id == p) and p in caller_names} | (h_locals & (caller_names - tgt_names0))
         if clash:
